@@ -464,8 +464,18 @@ m("retry-one-shot-bodies", ["C17"],
   ("registry/remote/retry/client.go", """			if req.GetBody == nil {
 				// body can't be rewound, so we can't retry
 				return resp, respErr
-			}""", """			if req.GetBody == nil {
-				req.GetBody = func() (io.ReadCloser, error) { return req.Body, nil }
+			}
+			body, err := req.GetBody()
+			if err != nil {
+				// failed to rewind the body, so we can't retry
+				return resp, respErr
+			}
+			req.Body = body""", """			if req.GetBody != nil {
+				body, err := req.GetBody()
+				if err != nil {
+					return resp, respErr
+				}
+				req.Body = body
 			}"""))
 m("retry-ignore-maxretry", ["C17"],
   ("registry/remote/retry/policy.go", """	if attempt >= p.MaxRetry {
@@ -489,6 +499,7 @@ m("auth-no-body-rewind", ["C17"],
   ("registry/remote/auth/client.go", """	if err := rewindRequestBody(req); err != nil {
 		return nil, err
 	}
+
 	return c.send(req)""", """	return c.send(req)"""))
 m("retry-ignore-retry-after", ["C17"],
   ("registry/remote/retry/policy.go", """				if retryAfter, _ := strconv.ParseInt(v, 10, 64); retryAfter > 0 {""", """				if retryAfter, _ := strconv.ParseInt(v, 10, 64); retryAfter > 1000 {"""))
